@@ -38,14 +38,14 @@ class Recorder:
         self.name = name
         self.glog = glog
         self.count = 0
-        self.plan = None        # (n, sender index, key of the target to detach)
+        self.plan = None        # (n, sender index, key of the target to detach, key of a callable to bind in the same breath or None)
         self.act = None         # callback performing the planned detach on the real interpreters
 
     def __call__(self, event):
         self.glog.append((self.name, type(event).__name__, event.name, tuple(sorted((k, repr(v)) for k, v in event.data.items()))))
         self.count += 1
         if self.plan is not None and self.count == self.plan[0]:
-            self.act(self.plan[1], self.plan[2])
+            self.act(self.plan[1], self.plan[2], self.plan[3])
 
 
 class Relay:
@@ -86,18 +86,24 @@ def run(ch, tier):
             res.stats['callable_with_queue_attribute'] += 1
     bound = {i: [] for i in range(nint)}       # sender -> ordered list of (target key, listener)
 
-    def detach_now(snd, key):
+    def detach_now(snd, key, key_bind=None):
         for k, l in list(bound[snd]):
             if k == key:
                 bound[snd].remove((k, l))
                 sims[snd].it.detach(l)
                 hist.append(('detach-from-callback', 'i%d' % snd, key))
                 res.stats['detach_during_dispatch_or_callback'] += 1
+        if key_bind is not None and key_bind not in [k for k, _ in bound[snd]]:
+            # replace it by another target in the same callback: the newcomer hears about the *next* event
+            bound[snd].append((key_bind, sims[snd].it.bind(calls[int(key_bind[1:])])))
+            hist.append(('bind-from-callback', 'i%d' % snd, key_bind))
+            res.stats['bind_during_dispatch_or_callback'] += 1
     for c_ in calls:
         c_.act = detach_now
         if cs.flag(1, 2):
             snd = cs.choice(nint)
-            c_.plan = (cs.int(1, 3), snd, cs.pick(['i%d' % j for j in range(nint)] + ['c%d' % j for j in range(ncall)]))
+            c_.plan = (cs.int(1, 3), snd, cs.pick(['i%d' % j for j in range(nint)] + ['c%d' % j for j in range(ncall)]),
+                       cs.pick(['c%d' % j for j in range(ncall)]) if cs.flag(1, 2) else None)
     events_by_chart = [sorted({t.event for t in s.sp.trans if t.event}) or ['ea'] for s in sims]
     hist = []
     cfp = fp(tuple(s.sp.fingerprint() for s in sims))
@@ -180,6 +186,8 @@ def run(ch, tier):
                     mc[c_.name] += 1
                     if c_.plan is not None and mc[c_.name] == c_.plan[0]:
                         mb[c_.plan[1]] = [(k, l) for k, l in mb[c_.plan[1]] if k != c_.plan[2]]
+                        if c_.plan[3] is not None and c_.plan[3] not in [k for k, _ in mb[c_.plan[1]]]:
+                            mb[c_.plan[1]] = mb[c_.plan[1]] + [(c_.plan[3], object())]
                 else:
                     j = int(key[1:])
                     d = e.data.get('delay')
